@@ -92,7 +92,7 @@ def gen(rnd, i):
         else:
             c['b'] = ax
     return dict(name='lp%d' % i, n1=n1, n2=n2, cons=cons, bnds=bnds, c=[g() for _ in range(n)],
-                sense=rnd.choice(['min', 'max']), front=['ro', 'lp'][i % 2], order=['obj_last', 'obj_first'][(i // 2) % 2])
+                sense=rnd.choice(['min', 'max']), front=['ro', 'lp', 'ro-wc'][i % 3], order=['obj_last', 'obj_first'][(i // 2) % 2])
 
 
 def cases(tier, seed, rnd):
@@ -112,8 +112,15 @@ def build(spec):
         if y is not None:
             e = e + (np.array(row[n1:], dtype=float) * y).sum()
         return e
+    def objective():
+        if spec.get('front') == 'ro-wc':
+            # the same objective stated as a worst case over a random variable that does not matter (minmax / maxmin)
+            z = m.rvar(1)
+            (m.minmax if spec['sense'] == 'min' else m.maxmin)(lin(spec['c']) + 0.0 * z.sum(), z >= 0, z <= 1)
+        else:
+            (m.min if spec['sense'] == 'min' else m.max)(lin(spec['c']))
     if spec.get('order') == 'obj_first':
-        (m.min if spec['sense'] == 'min' else m.max)(lin(spec['c']))
+        objective()
     objs = []
     for c in spec['cons']:
         A = np.array(c['A'], dtype=float)
@@ -138,7 +145,7 @@ def build(spec):
         con = (tgt <= val) if b['t'] == 'U' else (tgt >= val)
         bobjs.append(m.st(con))
     if spec.get('order') != 'obj_first':
-        (m.min if spec['sense'] == 'min' else m.max)(lin(spec['c']))
+        objective()
     return m, x, y, objs, bobjs
 
 
